@@ -88,7 +88,7 @@ def mutate(rnd, raw):
             return kind, s
         if kind == "enum-symbol" and enums:
             p, n = rnd.choice(enums)
-            bad = rnd.choice(["1abc", "a-b", "", "é", "a b", 5, "A.B", None, "dup"])
+            bad = rnd.choice(["1abc", "a-b", "", "é", "a b", 5, "A.B", None, "dup", "PAID\n", "\nA", "A\r\n", "A\n\n", " A", "A\u00a0"])
             if bad == "dup":
                 n["symbols"] = n["symbols"] + [n["symbols"][0]] if n["symbols"] else ["A", "A"]
             else:
@@ -476,7 +476,8 @@ def run_c14(ctx, fa):
     ctx.extra["advertised"] = advertised
     algs = ["CRC-64-AVRO"] * 6 + fixed + ["MD5", "SHA-256"]
     unknown = ["crc-64-avro", "CRC64", "", "sha-256", "Md5", "SHA256 ", "rabin", "sha3", "MD-5", "whirlpool?", "CRC-64-AVRO ",
-               "{md5}", "{}", "{0}", "SHA-{256}", "%s", "{algorithm}", "md5\n", "\u00e9"]
+               "{md5}", "{}", "{0}", "SHA-{256}", "%s", "{algorithm}", "md5\n", "\u00e9",
+               "new", "scrypt", "pbkdf2_hmac", "file_digest", "algorithms_guaranteed", "__name__", "algorithms_available", "hashlib"]
     texts = ["", "a", "\"int\"", "é", "😀", "\u0000", "a" * 300, "\U0010ffff" * 3]
     texts += _rare_crc_texts(rnd)
     big_text = "€" * 40000 + "a" * 10             # 120 010 bytes of UTF-8 in 40 010 characters (another number of 64 KiB blocks): digests only
